@@ -133,6 +133,29 @@ class BasicBlockNode:
         except IndexError:
             return None
 
+    def get_instruction_position(self, index: int) -> int | None:
+        """Get the position in the basic block of the instruction at the given index.
+
+        The basic block may also contain pseudo-instructions (TryBegin, TryEnd, SetLineno),
+        which instruction indices do not count; the instrumentation needs the position in
+        the basic block itself to insert instructions.
+
+        Args:
+            index: The (possibly negative) index of the instruction
+
+        Returns:
+            The position of that instruction in the basic block, if there is one
+        """
+        positions = [
+            position
+            for position, instr in enumerate(self._basic_block)
+            if isinstance(instr, Instr)
+        ]
+        try:
+            return positions[index]
+        except IndexError:
+            return None
+
     @property
     def original_instructions(self) -> Iterable[Instr]:
         """Provides the original instructions of the basic block.
